@@ -39,8 +39,8 @@ impl<const N: u32> PxE1<{ N }> {
 
         let sign_a = Self::sign_ui(ui_a);
         let sign_b = Self::sign_ui(ui_b);
-        let sign_c = Self::sign_ui(ui_c); //^ (op == softposit_mulAdd_subC);
-        let mut sign_z = sign_a ^ sign_b; // ^ (op == softposit_mulAdd_subProd);
+        let mut sign_c = Self::sign_ui(ui_c);
+        let mut sign_z = sign_a ^ sign_b;
 
         if sign_a {
             ui_a = ui_a.wrapping_neg();
@@ -50,6 +50,12 @@ impl<const N: u32> PxE1<{ N }> {
         }
         if sign_c {
             ui_c = ui_c.wrapping_neg();
+        }
+        // a*b - c negates the addend, c - a*b negates the product
+        match op {
+            MulAddType::SubC => sign_c = !sign_c,
+            MulAddType::SubProd => sign_z = !sign_z,
+            MulAddType::Add => {}
         }
 
         if N == 2 {
